@@ -22,7 +22,7 @@ var Introducers = []string{"Add", "AddRaw", "Set", "SetRaw", "WriteCas", "WriteC
 	"WriteWithXattrs", "UpdateXattrs", "WriteResurrectionWithXattrs", "WriteUpdateWithXattrs", "SetWithMeta", "WriteSubDoc-then-Touch", "Add-over-tombstone", "Set-over-tombstone"}
 
 // Order classes: how the deadline under test relates to the other deadlines / writes of the bucket.
-var Orders = []string{"only", "later-first", "later-after", "shorten", "lengthen", "preserve", "clear", "delete-clears", "past", "sibling-collection", "touch-shorten", "touch-lengthen", "recreated-collection", "after-empty-sweep", "sibling-handle-closed", "earlier-deadline-dropped"}
+var Orders = []string{"only", "later-first", "later-after", "shorten", "lengthen", "preserve", "clear", "delete-clears", "past", "sibling-collection", "touch-shorten", "touch-lengthen", "recreated-collection", "after-empty-sweep", "sibling-handle-closed", "earlier-deadline-dropped", "far-deadline-in-lower-collection"}
 
 type Spec struct {
 	Disk       bool
@@ -334,6 +334,17 @@ func RunOne(tmp string, s Spec) (res Result) {
 		default:
 			_ = c.Delete("decoy")
 		}
+		t0, t1, err = introduce(c, s.Intro, key, lead, s.Relative)
+		setWant(lead)
+	case "far-deadline-in-lower-collection":
+		// the default collection (the lowest row id) holds a deadline an hour away; in the named collection a decoy comes
+		// due one second ahead, then the target: after the decoy's sweep the timer must be re-armed for the target, the
+		// bucket's next deadline, not for whatever the first collection has
+		s.Coll = 1
+		res.Spec = s
+		c, other = cols[1], cols[0]
+		_ = other.SetRaw("far-away", uint32(time.Now().Unix())+3600, nil, []byte("f"))
+		_ = c.SetRaw("decoy", uint32(time.Now().Unix())+1, nil, []byte("d"))
 		t0, t1, err = introduce(c, s.Intro, key, lead, s.Relative)
 		setWant(lead)
 	case "earlier-deadline-dropped":
